@@ -363,6 +363,12 @@ Lemma is_variable_spec f : is_ter f = true -> (is_variable f = true <-> variable
 Proof.
   destruct f; simpl; try discriminate. intros _. rewrite !orb_true_iff, !starts_X_spec. tauto.
 Qed.
+Lemma unifies_refl0 f : unifies f f = Ok_ true.
+Proof.
+  destruct f; simpl; [reflexivity | |].
+  - now rewrite text_eqb_refl, !orb_true_r.
+  - now rewrite !text_eqb_refl.
+Qed.
 Lemma unifies_subsumes f g : is_ter f = true -> unifies f g = Ok_ true -> subsumes f g.
 Proof.
   destruct f as [| |k1 v1 k2 v2 k3 v3]; try discriminate. intros _. unfold unifies.
@@ -376,47 +382,70 @@ Proof.
     apply text_eqb_eq in E1, E2, E3. unfold val_le.
     rewrite orb_true_iff, text_eqb_eq, starts_X_spec in H1, H2, H3. tauto.
 Qed.
+Lemma subsumes_unifies f g : subsumes f g -> unifies f g = Ok_ true.
+Proof.
+  intros [->|C]; [apply unifies_refl0|].
+  destruct f as [| |k1 v1 k2 v2 k3 v3]; simpl in C; try contradiction. destruct g as [| |l1 w1 l2 w2 l3 w3]; simpl in C; try contradiction.
+  destruct C as (-> & -> & -> & H1 & H2 & H3). unfold unifies.
+  destruct (feat_eqb _ _); [reflexivity|]. rewrite !text_eqb_refl. cbn [andb negb].
+  unfold val_le in *. rewrite <- !starts_X_spec in *.
+  assert (E : forall v w, v = w \/ starts_X v = true -> text_eqb v w || starts_X v = true).
+  { intros v w [-> | ->]; [now rewrite text_eqb_refl | apply orb_true_r]. }
+  now rewrite (E _ _ H1), (E _ _ H2), (E _ _ H3).
+Qed.
 Lemma unifies_ter f g : is_ter f = true -> is_ter g = true -> exists u, unifies f g = Ok_ u.
 Proof.
   destruct f; try discriminate. destruct g; try discriminate. intros _ _. unfold unifies.
   destruct (feat_eqb _ _); [eauto|]. destruct (negb _); eauto.
 Qed.
 Lemma unifies_refl f : unifies f f = Ok_ true.
-Proof.
-  destruct f; simpl; [reflexivity | |].
-  - now rewrite text_eqb_refl, !orb_true_r.
-  - now rewrite !text_eqb_refl.
-Qed.
+Proof. apply unifies_refl0. Qed.
 
 (* ================= the loop over the shared variables ================= *)
+Definition mhas (f : feat) (m : mapping_t) : bool := dhas feat_eqb f m.
+Lemma mhas_set f g m f' : mhas f' (dset feat_eqb f g m) = feat_eqb f' f || mhas f' m.
+Proof. unfold mhas, dhas. rewrite (jd_get_set feat_eqb feat_eqb_eq). destruct (feat_eqb f' f); reflexivity. Qed.
+
 Lemma floop_sound order xf yf : forall m0 m, floop order xf yf m0 = Ok_ (Some m) ->
   (forall k, In k order -> exists fx fy, dget key_eqb k xf = Some fx /\ dget key_eqb k yf = Some fy /\
                                          (unifies fx fy = Ok_ true \/ unifies fy fx = Ok_ true)) /\
   (forall f g, In (f, g) m -> In (f, g) m0 \/
       exists k fx fy, In k order /\ dget key_eqb k xf = Some fx /\ dget key_eqb k yf = Some fy /\
         ((f = fx /\ g = fy /\ unifies fx fy = Ok_ true /\ is_variable fx = true) \/
-         (f = fy /\ g = fx /\ unifies fy fx = Ok_ true /\ is_variable fy = true))).
+         (f = fy /\ g = fx /\ unifies fx fy = Ok_ false /\ unifies fy fx = Ok_ true /\ is_variable fy = true))) /\
+  (forall f, mhas f m0 = true -> mhas f m = true) /\
+  (forall k fx fy, In k order -> dget key_eqb k xf = Some fx -> dget key_eqb k yf = Some fy ->
+      (unifies fx fy = Ok_ true -> is_variable fx = true -> mhas fx m = true) /\
+      (unifies fx fy = Ok_ false -> is_variable fy = true -> mhas fy m = true)).
 Proof.
   induction order as [|k order IH]; intros m0 m H; simpl in H.
-  - inversion H; subst. split; [intros k []|]. intros f g Hin. now left.
+  - inversion H; subst. split; [intros k []|]. split; [intros f g Hin; now left|]. split; [auto|]. intros k fx fy [].
   - destruct (dget key_eqb k xf) as [fx|] eqn:Ex; [|discriminate].
     destruct (dget key_eqb k yf) as [fy|] eqn:Ey; [|discriminate].
     destruct (unifies fx fy) as [[|]|e] eqn:U1; simpl in H; [| |discriminate].
-    + destruct (IH _ _ H) as [IH1 IH2]. split.
+    + destruct (IH _ _ H) as (IH1 & IH2 & IH3 & IH4). split; [|split; [|split]].
       * intros k' [<-|Hin]; [exists fx, fy; auto | now apply IH1].
       * intros f g Hin. destruct (IH2 _ _ Hin) as [Hm0 | (k' & fx' & fy' & Hk' & R)].
         -- destruct (is_variable fx) eqn:V; [|now left].
            apply (jd_In_set feat_eqb feat_eqb_eq) in Hm0. destruct Hm0 as [[-> ->]|Hm0]; [|now left].
            right. exists k, fx, fy. split; [now left|]. split; [assumption|]. split; [assumption|]. left. auto.
         -- right. exists k', fx', fy'. split; [now right | assumption].
+      * intros f Hf. apply IH3. destruct (is_variable fx); [|assumption]. rewrite mhas_set, Hf. apply orb_true_r.
+      * intros k' fx' fy' [<-|Hin] Ex' Ey'; [|exact (IH4 k' fx' fy' Hin Ex' Ey')].
+        rewrite Ex in Ex'. rewrite Ey in Ey'. inversion Ex'; inversion Ey'; subst fx' fy'. split; [|congruence].
+        intros _ V. apply IH3. rewrite V, mhas_set, feat_eqb_refl. reflexivity.
     + destruct (unifies fy fx) as [[|]|e] eqn:U2; simpl in H; [| discriminate | discriminate].
-      destruct (IH _ _ H) as [IH1 IH2]. split.
+      destruct (IH _ _ H) as (IH1 & IH2 & IH3 & IH4). split; [|split; [|split]].
       * intros k' [<-|Hin]; [exists fx, fy; auto | now apply IH1].
       * intros f g Hin. destruct (IH2 _ _ Hin) as [Hm0 | (k' & fx' & fy' & Hk' & R)].
         -- destruct (is_variable fy) eqn:V; [|now left].
            apply (jd_In_set feat_eqb feat_eqb_eq) in Hm0. destruct Hm0 as [[-> ->]|Hm0]; [|now left].
            right. exists k, fx, fy. split; [now left|]. split; [assumption|]. split; [assumption|]. right. auto.
         -- right. exists k', fx', fy'. split; [now right | assumption].
+      * intros f Hf. apply IH3. destruct (is_variable fy); [|assumption]. rewrite mhas_set, Hf. apply orb_true_r.
+      * intros k' fx' fy' [<-|Hin] Ex' Ey'; [|exact (IH4 k' fx' fy' Hin Ex' Ey')].
+        rewrite Ex in Ex'. rewrite Ey in Ey'. inversion Ex'; inversion Ey'; subst fx' fy'. split; [congruence|].
+        intros _ V. apply IH3. rewrite V, mhas_set, feat_eqb_refl. reflexivity.
 Qed.
 Lemma floop_total order xf yf :
   (forall k, In k order -> exists fx fy, dget key_eqb k xf = Some fx /\ dget key_eqb k yf = Some fy /\ is_ter fx = true /\ is_ter fy = true) ->
@@ -441,12 +470,13 @@ Proof.
 Qed.
 
 (* ================= substitution ================= *)
-Lemma subst_inst P m : (forall f g, In (f, g) m -> variable f /\ subsumes f g /\ (In (f, g) P \/ In (g, f) P)) ->
+Lemma subst_inst P m : (forall f g, In (f, g) m -> binds_to P f g) -> (forall f, bound P f -> mhas f m = true) ->
   forall c, inst P c (subst m c).
 Proof.
-  intros Hm. induction c as [b f | l IHl s r IHr]; simpl.
-  - destruct (dget feat_eqb f m) as [g|] eqn:E; [|constructor].
-    apply (jd_get_In feat_eqb feat_eqb_eq) in E. destruct (Hm _ _ E) as (V & S & HP). now apply inst_var.
+  intros Hm Hb. induction c as [b f | l IHl s r IHr]; simpl.
+  - destruct (dget feat_eqb f m) as [g|] eqn:E.
+    + apply (jd_get_In feat_eqb feat_eqb_eq) in E. apply inst_var. now apply Hm.
+    + apply inst_keep. intros B. apply Hb in B. unfold mhas, dhas in B. rewrite E in B. discriminate.
   - now constructor.
 Qed.
 Lemma subst_ident m : (forall f g, In (f, g) m -> f = g) -> forall c, subst m c = c.
@@ -530,7 +560,7 @@ Qed.
 Lemma core_sound m : ternary bx -> ternary by_ -> core xe ye = Ok_ (Some m) ->
   matches bx by_ /\ forall c, inst (pairs bx by_) c (subst m c).
 Proof.
-  intros Tx Ty H. unfold core in H. fold xf yf in H. destruct (floop_sound _ _ _ _ _ H) as [H1 H2].
+  intros Tx Ty H. unfold core in H. fold xf yf in H. destruct (floop_sound _ _ _ _ _ H) as (H1 & H2 & _ & H4).
   apply ternary_feats in Tx, Ty. rewrite Forall_forall in Tx, Ty.
   assert (Hsub : forall fx fy, In fx (feats bx) -> In fy (feats by_) ->
                  (unifies fx fy = Ok_ true -> subsumes fx fy) /\ (unifies fy fx = Ok_ true -> subsumes fy fx)).
@@ -540,14 +570,23 @@ Proof.
     destruct (positions_shared _ _ _ N1 N2) as (k & Hk & Ex & Ey).
     destruct (H1 _ Hk) as (fx & fy & Ex' & Ey' & U). rewrite Ex in Ex'. rewrite Ey in Ey'. inversion Ex'; inversion Ey'; subst fx fy.
     simpl. unfold compatible. destruct (Hsub f g (nth_error_In _ _ N1) (nth_error_In _ _ N2)) as [S1 S2]. destruct U; auto.
-  - apply subst_inst. intros f g Hin. destruct (H2 _ _ Hin) as [[]|(k & fx & fy & Hk & Ex & Ey & R)].
-    destruct (shared_positions _ Hk) as (i & fx' & fy' & N1 & N2 & Ex' & Ey').
-    rewrite Ex in Ex'. rewrite Ey in Ey'. inversion Ex'; inversion Ey'; subst fx' fy'.
-    assert (Ip : In (fx, fy) (pairs bx by_)) by (eapply nth_error_combine; eassumption).
-    destruct (Hsub fx fy (nth_error_In _ _ N1) (nth_error_In _ _ N2)) as [S1 S2].
-    destruct R as [(-> & -> & U & V)|(-> & -> & U & V)].
-    + split; [apply is_variable_spec; [apply Tx; eapply nth_error_In; eassumption | assumption]|]. split; [auto | now left].
-    + split; [apply is_variable_spec; [apply Ty; eapply nth_error_In; eassumption | assumption]|]. split; [auto | now right].
+  - apply subst_inst.
+    + intros f g Hin. destruct (H2 _ _ Hin) as [[]|(k & fx & fy & Hk & Ex & Ey & R)].
+      destruct (shared_positions _ Hk) as (i & fx' & fy' & N1 & N2 & Ex' & Ey').
+      rewrite Ex in Ex'. rewrite Ey in Ey'. inversion Ex'; inversion Ey'; subst fx' fy'.
+      assert (Ip : In (fx, fy) (pairs bx by_)) by (eapply nth_error_combine; eassumption).
+      destruct (Hsub fx fy (nth_error_In _ _ N1) (nth_error_In _ _ N2)) as [S1 S2].
+      destruct R as [(-> & -> & U & V)|(-> & -> & U0 & U & V)].
+      * split; [apply is_variable_spec; [apply Tx; eapply nth_error_In; eassumption | assumption]|]. left. auto.
+      * split; [apply is_variable_spec; [apply Ty; eapply nth_error_In; eassumption | assumption]|]. right.
+        split; [assumption|]. split; [|auto]. intros S. apply subsumes_unifies in S. congruence.
+    + intros f (g & V & [[Ip S]|(Ip & NS & S)]); unfold pairs in Ip; apply In_combine_nth in Ip as (i & N1 & N2).
+      * destruct (positions_shared _ _ _ N1 N2) as (k & Hk & Ex & Ey). destruct (H4 k f g Hk Ex Ey) as [D _].
+        apply D; [now apply subsumes_unifies|]. apply is_variable_spec; [apply Tx; eapply nth_error_In; eassumption | assumption].
+      * destruct (positions_shared _ _ _ N1 N2) as (k & Hk & Ex & Ey). destruct (H4 k g f Hk Ex Ey) as [_ D].
+        apply D; [|apply is_variable_spec; [apply Ty; eapply nth_error_In; eassumption | assumption]].
+        destruct (unifies_ter g f (Tx _ (nth_error_In _ _ N1)) (Ty _ (nth_error_In _ _ N2))) as [[|] U]; [|assumption].
+        elim NS. apply unifies_subsumes; [apply Tx; eapply nth_error_In; eassumption | assumption].
 Qed.
 Lemma core_total : ternary bx -> ternary by_ -> exists om, core xe ye = Ok_ om.
 Proof.
